@@ -3,12 +3,14 @@
 -/
 import Oracle.Avc
 import Oracle.Http
+import Oracle.Logger
 
 namespace Oracle
 
 def handlers : List (String × (String → List String → Option String)) := [
   ("avc.", Oracle.Avc.handle),
-  ("http.", Oracle.Http.handle)
+  ("http.", Oracle.Http.handle),
+  ("logger.", Oracle.Logger.handle)
 ]
 
 def dispatch (op : String) (args : List String) : Option String :=
